@@ -16,14 +16,16 @@ C05_KERNEL_THEOREMS = [
 def _entries(chk):
     ents = corpus.fixed() + corpus.expressions()
     if chk.tier == "thorough":
-        ents += corpus.demos() + corpus.generated(chk.seed, 80)
+        # demo_HyperElasticity alone needs ~25 min of exact read-set evaluation (two very large cell kernels): it is covered by
+        # C01/C08/C19's thorough tiers, not here
+        ents += [e for e in corpus.demos() if e.name != "demo_HyperElasticity"] + corpus.generated(chk.seed, 80)
     else:
         ents += corpus.generated(chk.seed, 8)
     return ents
 
 
 INPUT_ARRAYS = ("w", "c", "coordinate_dofs", "entity_local_index", "quadrature_permutation")
-TUPLE_CAP = {"quick": 300, "thorough": 4000}
+TUPLE_CAP = {"quick": 300, "thorough": 1000}
 
 
 def tuple_space(chk, c):
@@ -127,11 +129,16 @@ def read_sets(chk, d, ents):
                 chk.disagree("read-set run fails", {"kernel": c.name, "reply": failed[:3]})
                 continue
             rw, rc, used_lean = set(), set(), set()
-            unknown = False
+            unknown = unsupported = False
             for (ent, prm), t in zip(space, r[1:]):
                 chk.case("read_tuple", None)
                 if t and t[0] == "err":
-                    chk.disagree("read-set run fails", {"kernel": c.name, "entity": ent, "perm": prm, "reply": t})
+                    if t[1:] == ["unsupported", "int array decl"]:
+                        # the LNodes semantics has no integer array declarations (demo_CellGeometry: facet_edge_vertices
+                        # tables): the kernel is outside the reach of the certificates — counted, not a broken tie
+                        unsupported = True
+                    else:
+                        chk.disagree("read-set run fails", {"kernel": c.name, "entity": ent, "perm": prm, "reply": t})
                     continue
                 avoid, inb, used, wr, cr, unk = t
                 wr, cr = [int(v) for v in wr], [int(v) for v in cr]
@@ -152,6 +159,10 @@ def read_sets(chk, d, ents):
                                       f"coefficient {j} is flagged disabled but the kernel reads its block of w (readsAvoidB fails)",
                                       {"kernel": c.name, "coefficient": j, "block": c.coef_blocks[j], "entity": ent, "perm": prm,
                                        "reads_in_block": [k for k in wr if off <= k < off + n][:10]})
+            if unsupported:
+                chk.hist["read_set:model-unsupported-int-array-decl"] = chk.hist.get("read_set:model-unsupported-int-array-decl", 0) + 1
+                chk.notes.setdefault("kernels_outside_the_lnodes_model", []).append(c.name)
+                continue
             if unknown:
                 chk.disagree("a subscript of w/c could not be evaluated statically", {"kernel": c.name})
             if rc and (min(rc) < 0 or max(rc) >= c.sizes["c"]):
@@ -197,7 +208,7 @@ def poison_search(chk, ents):
                 inp2["w"] = w2
                 A1 = numeric.call_c(mod, ko, c, inp2, "float64")
                 out["n"] += 1
-                if not np.array_equal(A0, A1):
+                if not np.array_equal(A0, A1, equal_nan=True):  # out-of-domain math functions of random data give NaN in both runs
                     out["bad"].append({"kernel": c.name, "what": "result depends on the storage of a disabled coefficient", "flags": flags})
                     break
         return out
@@ -223,6 +234,10 @@ def packing_oracle(chk, ents):
             continue
         chk.case("packing_oracle", r["name"], n=max(1, r["compared"]))
         for b in r["bad"]:
+            if str(b.get("c_value")) == "nan" and str(b.get("oracle_value")) == "nan":
+                # kernel and oracle both give NaN (out-of-domain math function of the random data): nothing to compare
+                chk.hist["packing_oracle:both-nan"] = chk.hist.get("packing_oracle:both-nan", 0) + 1
+                continue
             chk.violation(f"c05:packing:{r['name']}", f"kernel does not consume w/c in the declared packing: differs from the oracle (rel {b.get('relerr')})",
                           {"entry": r["name"], **b})
 
